@@ -1031,8 +1031,13 @@ func jwsReplay(args []string) {
 			mod.Y = b64(append([]byte{0}, y...))
 		case "x_empty":
 			mod.X = ""
-		case "wrong_crv_name":
+		case "wrong_crv_name", "wrong_crv_name_alg_hint":
 			mod.Crv = map[string]string{"P-256": "P-384", "P-384": "P-521", "P-521": "P-256", "secp256k1": "P-256"}[j.Crv]
+
+			if c.Kt == "p256" && c.Mod == "wrong_crv_name_alg_hint" {
+				mod.Crv = "secp256k1" // (the same width: only the curve equation tells them apart)
+			}
+		case "alg_of_other_curve":
 		case "x_not_base64":
 			mod.X = "+" + j.X[1:]
 		case "x_short_shadowed":
@@ -1069,6 +1074,15 @@ func jwsReplay(args []string) {
 		}
 
 		raw, _ := json.Marshal(mod)
+
+		switch c.Mod {
+		case "wrong_crv_name_alg_hint":
+			// ... followed by an alg member that names the curve the point really lies on
+			raw = append(append(raw[:len(raw)-1:len(raw)-1], fmt.Sprintf(`,"alg":%q`, key.Alg)...), '}')
+		case "alg_of_other_curve":
+			// ... followed by an alg member that names another curve
+			raw = append(append(raw[:len(raw)-1:len(raw)-1], fmt.Sprintf(`,"alg":%q`, map[string]string{"p256": "ES256K", "k1": "ES256", "p384": "ES512", "p521": "ES384"}[c.Kt])...), '}')
+		}
 
 		if c.Mod == "x_short_shadowed" {
 			// ... followed by a member "X" with the full-width coordinate
@@ -1109,6 +1123,23 @@ func jwsReplay(args []string) {
 			if uerr != nil || !sameKey || verr != nil {
 				fail("jwk-round-trip", fmt.Sprint(uerr, " / ", verr), "same key, verifies", map[string]interface{}{"same_key": sameKey}, string(raw))
 				return
+			}
+
+			// ... and writes under the key type and curve name it was read under
+			{
+				out, merr := back.MarshalJSON()
+
+				var written struct {
+					Kty string `json:"kty"`
+					Crv string `json:"crv"`
+				}
+
+				_ = json.Unmarshal(out, &written)
+
+				if merr != nil || written.Kty != j.Kty || written.Crv != j.Crv {
+					fail("jwk-round-trip", fmt.Sprintf("written back as kty %q crv %q (%v)", written.Kty, written.Crv, merr), map[string]interface{}{"kty": j.Kty, "crv": j.Crv}, string(out), string(raw))
+					return
+				}
 			}
 
 			// read into a variable that held a key of another kind before: it is this key now, and writes as this key
